@@ -2518,9 +2518,38 @@ def _unreferenced(members, name):
     return [(n, pat.sub("", d) if isinstance(d, str) else d) for n, d in members if n != name]
 
 
+# the part of a package that holds the document's metadata: each of its text elements can be present, present but empty
+# (<dc:title/>) or absent
+METADATA_MEMBERS = {"docx": ["docProps/core.xml"], "pptx": ["docProps/core.xml"], "xlsx": ["docProps/core.xml"],
+                    "odt": ["meta.xml"], "odp": ["meta.xml"], "ods": ["meta.xml"], "epub": ["OEBPS/content.opf"]}
+_LEAF = r"<(%s)(\s[^<>]*?)?>[^<>]+</\1>"
+# flat formats: (name, pattern of the stated value, the same statement with an empty value)
+FLAT_EMPTIABLE = {
+    "html": [("title", r"<title>[^<]*</title>", "<title></title>"), ("description", r'content="[^"]*"', 'content=""')],
+    "mhtml": [("title", r"<title>[^<]*</title>", "<title></title>"), ("date header", r"(?m)^Date: [^\r\n]*", "Date:"),
+              ("subject header", r"(?m)^Subject: [^\r\n]*", "Subject:")],
+    "eml": [("date header", r"(?m)^Date: [^\r\n]*", "Date:"), ("subject header", r"(?m)^Subject: [^\r\n]*", "Subject:"),
+            ("message-id header", r"(?m)^Message-ID: [^\r\n]*", "Message-ID:")],
+    "mbox": [("date header", r"(?m)^Date: [^\r\n]*", "Date:")],
+    "rtf": [("title", r"\{\\title [^{}]*\}", r"{\\title }"), ("author", r"\{\\author [^{}]*\}", r"{\\author }")],
+}
+
+
+def _metadata_elements(xml):
+    """tags of the elements of a metadata part that hold nothing but text, in document order"""
+    import re
+    return list(dict.fromkeys(m.group(1) for m in re.finditer(_LEAF % r"[A-Za-z][\w:.-]*", xml)))
+
+
+def _edit_metadata(xml, tag, keep_empty):
+    import re
+    return re.sub(_LEAF % re.escape(tag), (lambda m: "<%s%s/>" % (m.group(1), m.group(2) or "")) if keep_empty else "", xml)
+
+
 def history_family(fmt):
-    """[variant]: ('full',) | ('without', member or element) | ('without+unreferenced', member) | ('encoded as', codec);
-    repository resources: [('full',)]"""
+    """[variant]: ('full',) | ('without', member or element) | ('without+unreferenced', member) | ('encoded as', codec) |
+    ('with empty', metadata element[, member]) | ('without element', metadata element, member); repository resources:
+    [('full',)]"""
     key = ("family", fmt)
     if key not in _SCAN_CACHE:
         fam = [("full",)] + [("without", n) for n in FLAT_OPTIONAL.get(fmt, [])] + [("encoded as", e) for e in FLAT_ENCODINGS.get(fmt, [])]
@@ -2530,6 +2559,10 @@ def history_family(fmt):
                 fam.append(("without", n))
                 if _unreferenced(mem, n) != [m for m in mem if m[0] != n]:
                     fam.append(("without+unreferenced", n))
+            for member in METADATA_MEMBERS.get(fmt, []):
+                for tag in _metadata_elements(dict(mem)[member]):
+                    fam += [("with empty", tag, member), ("without element", tag, member)]
+        fam += [("with empty", n) for n, _, _ in FLAT_EMPTIABLE.get(fmt, [])]
         _SCAN_CACHE[key] = fam
     return _SCAN_CACHE[key]
 
@@ -2544,12 +2577,18 @@ def history_document(fmt, ink_no, variant):
     path = "/data/%s.%s" % (ink, fmt)
     if fmt in FLAT:
         data = FLAT[fmt](ink, variant[1] if variant[0] == "without" else None)
+        if variant[0] == "with empty":
+            import re
+            _, pat, empty = [e for e in FLAT_EMPTIABLE[fmt] if e[0] == variant[1]][0]
+            data = re.sub(pat.encode(), empty.encode(), data)
         return path, data.decode("utf-8").encode(variant[1]) if variant[0] == "encoded as" else data
     mem = PACKAGES[fmt](ink)
     if variant[0] == "without":
         mem = [m for m in mem if m[0] != variant[1]]
     elif variant[0] == "without+unreferenced":
         mem = _unreferenced(mem, variant[1])
+    elif variant[0] in ("with empty", "without element"):
+        mem = [(n, _edit_metadata(d, variant[1], variant[0] == "with empty") if n == variant[2] else d) for n, d in mem]
     return path, _h_zip(mem)
 
 
@@ -2557,6 +2596,38 @@ def history_document(fmt, ink_no, variant):
 
 _ZYGOTE_SRC = r"""
 import sys, os, io, json, struct, base64, signal, re
+
+# the clock every run reads is the instant its job states (installed before anything of the library is imported):
+# datetime.datetime.now / utcnow / today, datetime.date.today, time.time / time_ns / localtime() / gmtime()
+import datetime as _dtm, time as _tm
+_REAL_DT, _REAL_DATE, _CLOCK = _dtm.datetime, _dtm.date, [None]
+class _LikeReal(type):
+    def __instancecheck__(cls, o):
+        return isinstance(o, cls._real)
+    def __subclasscheck__(cls, k):
+        return issubclass(k, cls._real)
+class _ClockDT(_REAL_DT, metaclass=_LikeReal):
+    _real = _REAL_DT
+    @classmethod
+    def now(cls, tz=None):
+        return _REAL_DT.now(tz) if _CLOCK[0] is None else _REAL_DT.fromtimestamp(_CLOCK[0], tz)
+    @classmethod
+    def utcnow(cls):
+        return _REAL_DT.utcnow() if _CLOCK[0] is None else _REAL_DT.fromtimestamp(_CLOCK[0], _dtm.timezone.utc).replace(tzinfo=None)
+    @classmethod
+    def today(cls):
+        return cls.now()
+class _ClockDate(_REAL_DATE, metaclass=_LikeReal):
+    _real = _REAL_DATE
+    @classmethod
+    def today(cls):
+        return _REAL_DATE.today() if _CLOCK[0] is None else _REAL_DT.fromtimestamp(_CLOCK[0]).date()
+_dtm.datetime, _dtm.date = _ClockDT, _ClockDate
+_real_time, _real_ns, _real_local, _real_gm = _tm.time, _tm.time_ns, _tm.localtime, _tm.gmtime
+_tm.time = lambda: _real_time() if _CLOCK[0] is None else _CLOCK[0]
+_tm.time_ns = lambda: _real_ns() if _CLOCK[0] is None else int(_CLOCK[0] * 10 ** 9)
+_tm.localtime = lambda secs=None: _real_local(_tm.time() if secs is None else secs)
+_tm.gmtime = lambda secs=None: _real_gm(_tm.time() if secs is None else secs)
 
 def _extract(path, data, keep):
     from sharepoint2text.parsing.router import get_extractor
@@ -2602,8 +2673,13 @@ def _job(job):
             sys.setprofile(lambda frame, event, arg: note(frame.f_code) if event == "call" else None)
     try:
         keep = []
+        _CLOCK[0] = job.get("clock")
         res = [_extract(p, base64.b64decode(d), keep) for p, d in job["docs"]]
         _again(res, keep)
+        if job.get("append_clock"):       # twin: what the clock of this process reads counts as part of the result
+            import datetime, time
+            for r in res:
+                r["json"] = json.dumps([json.loads(r["json"]), datetime.datetime.now().isoformat(), time.time()])
     finally:
         if wanted and mon is not None:
             mon.set_events(mon.PROFILER_ID, 0)
@@ -2642,7 +2718,8 @@ while True:
                 os.close(r)
                 os.dup2(2, 1)
                 signal.alarm(int(job.get("timeout", 300)))
-                payload = json.dumps(_job({"docs": run, "watch": job.get("watch", [])})).encode()
+                payload = json.dumps(_job({"docs": run, "watch": job.get("watch", []), "clock": job["clocks"][len(answers) + len(kids)],
+                                           "append_clock": job.get("append_clock")})).encode()
             except BaseException as e:
                 payload = json.dumps({"__child_error__": "%s: %s" % (type(e).__name__, e)}).encode()
             try:
@@ -2660,12 +2737,18 @@ while True:
 _ZYGOTE = {}
 
 
-def in_processes_without_history(runs, watch=()):
+# the instant every sequence and every reference is extracted at, and the other instant at which each document is
+# extracted once more on its own (POSIX seconds: 2031-05-06 07:08:09.123456 UTC, 1999-12-31 23:59:58.5 UTC)
+CLOCK_A, CLOCK_B = 1935817689.123456, 946684798.5
+
+
+def in_processes_without_history(runs, watch=(), clocks=None, append_clock=False):
     """runs = [[(path, bytes), ...], ...]: every run is extracted, one document after the other by the public reader,
     in a NEW process of its own whose library state is 'imported, nothing extracted' (a fork of a server that only
     ever imports the package and never extracts; the server is started once per worker, the runs of one call are
-    forked side by side).  -> per run {"results": [{"json": canonical to_json() of the reader's results | exception
-    raised, "buffer_intact": bool}], "called": [(file, function) of `watch` that ran]}"""
+    forked side by side); the clock a run reads stands at its instant of `clocks` (default CLOCK_A).  -> per run
+    {"results": [{"json": canonical to_json() of the reader's results | exception raised, "buffer_intact": bool}],
+    "called": [(file, function) of `watch` that ran]}"""
     import json
     import struct
     import subprocess
@@ -2677,7 +2760,8 @@ def in_processes_without_history(runs, watch=()):
         z = _ZYGOTE["proc"] = subprocess.Popen([sys.executable, "-c", _ZYGOTE_SRC], stdin=subprocess.PIPE, stdout=subprocess.PIPE,
                                                stderr=subprocess.DEVNULL, env=env)
     job = json.dumps({"runs": [[[p, base64.b64encode(d).decode()] for p, d in docs] for docs in runs],
-                      "preload": sorted({p for docs in runs for p, _ in docs}), "watch": [list(w) for w in watch]}).encode()
+                      "preload": sorted({p for docs in runs for p, _ in docs}), "watch": [list(w) for w in watch],
+                      "clocks": list(clocks) if clocks is not None else [CLOCK_A] * len(runs), "append_clock": bool(append_clock)}).encode()
     z.stdin.write(struct.pack(">I", len(job)) + job)
     z.stdin.flush()
     hdr = z.stdout.read(4)
@@ -2699,26 +2783,31 @@ def _ref_key(path, data):
     return (path, hashlib.sha1(data).hexdigest())
 
 
-def sequences_and_references(sequences, extra_reference_docs=(), watch=(), cached=True):
+def sequences_and_references(sequences, extra_reference_docs=(), watch=(), cached=True, append_clock=False):
     """the sequences, each in a process of its own, and - what the property calls THE result of (bytes, path) - every
-    document of them alone in a process of its own.  cached: references are kept per worker (a reference never
-    changes) and sequences extracted ahead for this part are taken from there; replays pass cached=False and
-    run everything anew.  -> (answers per sequence, reference(path, bytes) -> {"json", "buffer_intact"})"""
+    document of them alone in a process of its own, once at the instant of the sequences (CLOCK_A) and once at
+    another instant (CLOCK_B).  cached: references are kept per worker (a reference never changes) and sequences
+    extracted ahead for this part are taken from there; replays pass cached=False and run everything anew.
+    -> (answers per sequence, reference(path, bytes, at="A"|"B") -> {"json", "buffer_intact"})"""
     refs = _REFERENCE if cached else {}
     need = {}
     for docs in list(sequences) + [list(extra_reference_docs)]:
         for path, data in docs:
-            k = _ref_key(path, data)
-            if k not in refs:
-                need[k] = (path, data)
+            for at in "AB":
+                k = _ref_key(path, data) + (at, append_clock)
+                if k not in refs:
+                    need[k] = (path, data)
     todo = [docs for docs in sequences if not (cached and not watch and _seq_key(docs) in _SEQUENCES)]
-    out = in_processes_without_history(todo + [[d] for d in need.values()], watch=watch) if todo or need else []
+    out = in_processes_without_history(todo + [[d] for d in need.values()], watch=watch, append_clock=append_clock,
+                                       clocks=[CLOCK_A] * len(todo) + [CLOCK_A if k[2] == "A" else CLOCK_B for k in need]) \
+        if todo or need else []
     for k, o in zip(need, out[len(todo):]):
         refs[k] = o["results"][0]
     fresh = {_seq_key(docs): o for docs, o in zip(todo, out)}
     if cached and not watch:
         _SEQUENCES.update(fresh)
-    return [fresh.get(_seq_key(docs)) or _SEQUENCES[_seq_key(docs)] for docs in sequences], (lambda path, data: refs[_ref_key(path, data)])
+    return [fresh.get(_seq_key(docs)) or _SEQUENCES[_seq_key(docs)] for docs in sequences], \
+        (lambda path, data, at="A": refs[_ref_key(path, data) + (at, append_clock)])
 
 
 _SEQUENCES = {}
@@ -2825,11 +2914,19 @@ def k5_histories(ctx):
         if ctx.perturb == "dropped_member_still_expected" and steps[i][2][0] != "full":
             ref_doc = history_document(steps[i][0], steps[i][1], ("full",))
         ref_docs.append(ref_doc)
-    answers, reference = sequences_and_references([docs], ref_docs, cached=not ctx.concrete)
+    twin_clock = ctx.perturb == "clock_reading_counts_as_result"
+    answers, reference = sequences_and_references([docs], ref_docs, cached=not ctx.concrete, append_clock=twin_clock)
     got = answers[0]["results"]
     for i in range(len(docs)):
         ref = reference(*ref_docs[i])
         info = dict(step=i + 1, sequence=described[:i + 1])
+        other = reference(*ref_docs[i], at="B")
+        if ref["json"] != other["json"]:
+            where, seen, expected = _json_difference(ref["json"], other["json"])
+            ctx.fail("result-depends-on-the-time-of-extraction", differs_at=where, document=described[i],
+                     extracted_at_2031_05_06T07_08_09=seen, extracted_at_1999_12_31T23_59_58=expected)
+        if twin_clock:
+            continue
         ctx.require(got[i]["buffer_intact"] and ref["buffer_intact"], "callers-buffer-content-changed", **info)
         if got[i].get("json_at_the_end", got[i]["json"]) != got[i]["json"] and ctx.perturb is None:
             where, seen, expected = _json_difference(got[i]["json_at_the_end"], got[i]["json"])
@@ -3015,7 +3112,8 @@ def _k5_state_sites(ctx):
 
 
 def _format_group(name):
-    return {"flat": sorted(FLAT), "resources": sorted(_fixture_pairs()), "packages": sorted(PACKAGES), "every": history_formats()}[name]
+    return {"flat": sorted(FLAT), "flat-mail-and-html": [f for f in sorted(FLAT) if f in ("eml", "mbox", "mhtml", "html")],
+            "flat-other": [f for f in sorted(FLAT) if f not in ("eml", "mbox", "mhtml", "html")], "resources": sorted(_fixture_pairs()), "packages": sorted(PACKAGES), "every": history_formats()}[name]
 
 
 def _k5_parts(tier):
@@ -3025,7 +3123,8 @@ def _k5_parts(tier):
     thorough: every ordered pair of family members per format (parts by first member), every ordered pair of all
     formats."""
     parts = [{"format": f, "pairs": "star"} for f in sorted(PACKAGES)]
-    parts += [{"formats": "flat", "pairs": "star"}, {"formats": "resources", "pairs": "star"}]
+    parts += [{"formats": "flat-mail-and-html", "pairs": "star"}, {"formats": "flat-other", "pairs": "star"},
+              {"formats": "resources", "pairs": "star"}]
     if tier == "quick":
         parts.append({"formats": "packages", "pairs": "cross", "among": "packages"})
     else:
@@ -3126,7 +3225,8 @@ KERNELS = [
                  "equals the result in a process of its own",
            k5_histories, targets=_k5_targets, parts=_k5_parts, strength="structure",
            perturb=[("reference_from_first_document", {"format": "html", "pairs": "star"}),
-                    ("dropped_member_still_expected", {"format": "docx", "pairs": "star"})],
+                    ("dropped_member_still_expected", {"format": "docx", "pairs": "star"}),
+                    ("clock_reading_counts_as_result", {"format": "xlsx", "pairs": "star"})],
            bounds={"quick": {"sequences": "length 3 (A, B, A again); per package format the star of its family around the full "
                                           "document; ordered pairs of package formats"},
                    "thorough": {"sequences": "length 3; every ordered pair of family members per package format; every ordered pair "
@@ -3138,10 +3238,17 @@ KERNELS = [
                     "pdf, tar): which optional element is left out (title, table, header, footnote, attachment, body part, document "
                     "information, archive member ...) or which other encoding the text is in",
                     "whether the varied document comes before or after the full one (thorough: both documents range over the family)",
+                    "which text element of the package's metadata part (docProps/core.xml, meta.xml, the OPF metadata: title, creator, "
+                    "created, modified, identifier, language ...) is present but empty or absent; flat formats: which header / "
+                    "title / info value is stated empty",
                     "path aliasing for the pair of full documents: other bytes under the first document's path; the first "
                     "document's bytes under another path at the third step",
                     "format of the earlier document (ordered pairs of formats)"],
-           stubs=["process without extraction history -> fork of a server process that has imported sharepoint2text.parsing.router "
+           stubs=["clock of the extracting processes (datetime.datetime.now/utcnow/today, datetime.date.today, time.time/time_ns/"
+                  "localtime()/gmtime()) -> the instant stated for the run, installed in the server before the library is imported: "
+                  "sequences and references read 2031-05-06T07:08:09.123456Z, every document is extracted once more on its own at "
+                  "1999-12-31T23:59:58.5Z and must serialise identically (label result-depends-on-the-time-of-extraction)",
+                  "process without extraction history -> fork of a server process that has imported sharepoint2text.parsing.router "
                   "and never extracts anything itself (one server per worker; the sequence and every reference run in forks of it)"],
            assumptions=["two documents of one format carry the same part names, relationship ids, style ids, note ids and paths inside "
                         "the package and differ in every text, name, author and picture (their 'ink'), so anything kept from an "
